@@ -90,6 +90,7 @@ def purity(year):
                 problems.append(f'no source for {f}')
                 continue
             params = {a.arg for a in node.args.args}
+            problems.extend(accessor_misuse(node, f is fn))
             for n in ast.walk(node):
                 if isinstance(n, (ast.For, ast.comprehension)) or (isinstance(n, ast.Call) and isinstance(n.func, ast.Name) and n.func.id in ORDER_CONSUMERS
                                                                     or isinstance(n, ast.Call) and isinstance(n.func, ast.Attribute) and n.func.attr == 'join'):
@@ -138,6 +139,32 @@ def purity(year):
 
 
 ORDER_CONSUMERS = ('sum', 'list', 'tuple', 'enumerate', 'zip', 'map', 'filter', 'iter', 'next', 'reversed')
+
+
+def accessor_misuse(node, is_line):
+    """A line sees its inputs and the other lines only through keyed reads i[...] / v[...]: a missing key aborts the attempt and parks
+    the line.  Iterating over an accessor, asking its length, membership or .get()/.items()/.keys()/.values() shows whatever happens
+    to be loaded at that moment - a partial view that depends on the order of attempts and never raises."""
+    args = [a.arg for a in node.args.args]
+    if isinstance(node, ast.Lambda) or is_line:
+        acc = set(args[1:3]) if len(args) >= 3 else set()
+    else:
+        acc = {a for a in args if a in ('i', 'v', 'inputs', 'values')}
+    out = []
+    if not acc:
+        return out
+    for n in ast.walk(node):
+        if isinstance(n, ast.Call) and isinstance(n.func, ast.Attribute) and isinstance(n.func.value, ast.Name) and n.func.value.id in acc \
+                and n.func.attr in ('items', 'keys', 'values', 'get', '__iter__', '__len__', '__contains__'):
+            out.append(f'{n.func.value.id}.{n.func.attr}() at line {n.lineno}: the accessor is read other than by key')
+        if isinstance(n, (ast.For, ast.comprehension)) and isinstance(n.iter, ast.Name) and n.iter.id in acc:
+            out.append(f'iteration over the accessor {n.iter.id} at line {n.iter.lineno}')
+        if isinstance(n, ast.Call) and isinstance(n.func, ast.Name) and n.func.id in ('len', 'list', 'dict', 'sorted', 'set', 'tuple', 'iter') and n.args \
+                and isinstance(n.args[0], ast.Name) and n.args[0].id in acc:
+            out.append(f'{n.func.id}({n.args[0].id}) at line {n.lineno}: the accessor is read other than by key')
+        if isinstance(n, ast.Compare) and any(isinstance(o, (ast.In, ast.NotIn)) for o in n.ops) and any(isinstance(c, ast.Name) and c.id in acc for c in n.comparators):
+            out.append(f'membership test on an accessor at line {n.lineno}')
+    return out
 
 
 def hash_ordered(f, e):
@@ -438,6 +465,22 @@ def native_setitem():
     return {'reproduced': bad, 'runs': runs}
 
 
+def native_request_order():
+    """Concretisation: the real habutax.solve on two toy forms (one solvable, one lacking an input), requested in both orders."""
+    from .. import session
+    prog = {'a': {'inputs': ['x'], 'lines': {'l': [('in', 'x')]}, 'required': ['l']},
+            'b': {'inputs': ['y'], 'lines': {'m': [('in', 'y')]}, 'required': ['m']}}
+    runs = {}
+    try:
+        for order in (['a', 'b'], ['b', 'a']):
+            o = session.run_session(prog, order, {'a.x': '1'}, {}, None, None)
+            runs[' '.join(order)] = {'solved': o['first']['solved'], 'ended': o['first']['ended']}
+    except BaseException as ex:
+        return {'reproduced': False, 'error': f'{type(ex).__name__}: {str(ex)[:100]}'}
+    vals = list(runs.values())
+    return {'reproduced': vals[0] != vals[1], 'kind': 'request-order', 'verdict_by_order_of_requested_forms': runs}
+
+
 def solver_layer(tier, seed):
     """Layer 1 + the hypotheses of the lemma: the solver obligations, for every order (multiset views)."""
     obs = []
@@ -445,6 +488,16 @@ def solver_layer(tier, seed):
         obs += sp.unit_runner(u)
     wanted = {frag for frs in LEMMA_HYPS.values() for frag in frs}
     keep = []
+    # habutax.solve(args): one solve over all requested forms (the CLI layer must not re-introduce an order of requests)
+    from . import main_unit
+    for o in main_unit.unit_main():
+        if o.note == 'C05' or (o.status != oblig.DISCHARGED and o.id.endswith('/subset')):
+            o.id = o.id.replace('MAIN/', 'C05/main/')
+            if o.status != oblig.DISCHARGED:
+                o.replay = native_request_order()
+                if o.replay.get('reproduced'):
+                    o.status = oblig.REFUTED
+            keep.append(o)
     for o in obs:
         if any(f in o.id for f in wanted) or any(f in o.id for f in DIAGNOSTIC_POSTS) or o.status != oblig.DISCHARGED:
             o.id = o.id.replace('SOLVER/', 'C05/solver/')
